@@ -103,6 +103,8 @@ type FnCtx struct {
 	modsEntry  []modTarget // function's own modifies, evaluated at entry
 	wherePos   string
 	localTypes map[string]types.Type
+	inPattern bool
+	globalFacts []string
 	pendingPanics []*State
 	hasRecover bool
 	modelVars []string
@@ -133,7 +135,20 @@ func (fx *FnCtx) heapInitConst(name, sort string) string {
 	fx.heapInit[name] = c
 	fx.heapSort[name] = sort
 	fx.sc.consts = append(fx.sc.consts, fmt.Sprintf("(declare-const %s %s)", c, sort))
+	if f := heapWF(c, sort); f != "" {
+		fx.globalFacts = append(fx.globalFacts, f)
+	}
 	return c
+}
+
+// heapWF: every slice stored in the heap is well-formed (0 <= len <= cap, 0 <= off): a Go invariant.
+func heapWF(c, sort string) string {
+	const pfx = "(Array Int Slice_"
+	if !strings.HasPrefix(sort, pfx) {
+		return ""
+	}
+	ss := strings.TrimSuffix(strings.TrimPrefix(sort, "(Array Int "), ")")
+	return fmt.Sprintf("(forall ((r Int)) (! (and (<= 0 (len_%s (select %s r))) (<= (len_%s (select %s r)) (cap_%s (select %s r))) (<= 0 (off_%s (select %s r)))) :pattern ((select %s r))))", ss, c, ss, c, ss, c, ss, c, c)
 }
 
 func (fx *FnCtx) setHeap(st *State, name, sort, term string) {
@@ -147,6 +162,9 @@ func (fx *FnCtx) havocHeap(st *State, name, sort string) string {
 	fx.heapInitConst(name, sort)
 	c := fx.sc.Fresh(name, sort)
 	st.heap[name] = c
+	if f := heapWF(c, sort); f != "" {
+		st.facts = append(st.facts, f)
+	}
 	return c
 }
 
